@@ -1,6 +1,315 @@
-//! ops family `lsb0` (stub — replaced when the family is implemented)
+//! ops family `misc`: `from_lsb0` (C17), `stats` (C20), `serde_*` (C19), `debug` (C16)
 use super::*;
+use serde::de::{DeserializeSeed, IntoDeserializer, SeqAccess, Visitor};
+use serde::ser::Impossible;
+use serde::{Deserialize, Deserializer, Serialize, Serializer};
+use std::fmt;
 
-pub fn handle(_st: &mut State, _toks: &[&str]) -> HResult {
-    None
+fn fnv_bytes(bs: &[u8]) -> u64 {
+    let mut h = FNV_BASIS;
+    for &x in bs {
+        h = fnv_step(h, x as u64);
+    }
+    h
+}
+
+// ------------------------------------------------------------------------------------------ C19: serde
+
+#[derive(Debug)]
+pub struct SErr(String);
+impl fmt::Display for SErr {
+    fn fmt(&self, f: &mut fmt::Formatter) -> fmt::Result {
+        f.write_str(&self.0)
+    }
+}
+impl std::error::Error for SErr {}
+impl serde::ser::Error for SErr {
+    fn custom<T: fmt::Display>(msg: T) -> Self {
+        SErr(msg.to_string())
+    }
+}
+impl serde::de::Error for SErr {
+    fn custom<T: fmt::Display>(msg: T) -> Self {
+        SErr(msg.to_string())
+    }
+}
+
+/// A `Serializer` that only records which data-model methods are called (and the payload of
+/// `serialize_bytes`).  Compound types are recorded and then refused.
+#[derive(Default)]
+pub struct Recorder {
+    pub calls: Vec<&'static str>,
+    pub bytes: Vec<u8>,
+}
+
+macro_rules! rec_scalar {
+    ($($name:ident : $ty:ty),*) => {
+        $(fn $name(self, _v: $ty) -> Result<(), SErr> { self.calls.push(stringify!($name)); Ok(()) })*
+    };
+}
+
+impl<'a> Serializer for &'a mut Recorder {
+    type Ok = ();
+    type Error = SErr;
+    type SerializeSeq = Impossible<(), SErr>;
+    type SerializeTuple = Impossible<(), SErr>;
+    type SerializeTupleStruct = Impossible<(), SErr>;
+    type SerializeTupleVariant = Impossible<(), SErr>;
+    type SerializeMap = Impossible<(), SErr>;
+    type SerializeStruct = Impossible<(), SErr>;
+    type SerializeStructVariant = Impossible<(), SErr>;
+
+    rec_scalar!(serialize_bool: bool, serialize_i8: i8, serialize_i16: i16, serialize_i32: i32, serialize_i64: i64,
+        serialize_u8: u8, serialize_u16: u16, serialize_u32: u32, serialize_u64: u64, serialize_f32: f32,
+        serialize_f64: f64, serialize_char: char, serialize_str: &str);
+
+    fn serialize_bytes(self, v: &[u8]) -> Result<(), SErr> {
+        self.calls.push("serialize_bytes");
+        self.bytes.extend_from_slice(v);
+        Ok(())
+    }
+    fn serialize_none(self) -> Result<(), SErr> {
+        self.calls.push("serialize_none");
+        Ok(())
+    }
+    fn serialize_some<T: ?Sized + Serialize>(self, _v: &T) -> Result<(), SErr> {
+        self.calls.push("serialize_some");
+        Ok(())
+    }
+    fn serialize_unit(self) -> Result<(), SErr> {
+        self.calls.push("serialize_unit");
+        Ok(())
+    }
+    fn serialize_unit_struct(self, _n: &'static str) -> Result<(), SErr> {
+        self.calls.push("serialize_unit_struct");
+        Ok(())
+    }
+    fn serialize_unit_variant(self, _n: &'static str, _i: u32, _v: &'static str) -> Result<(), SErr> {
+        self.calls.push("serialize_unit_variant");
+        Ok(())
+    }
+    fn serialize_newtype_struct<T: ?Sized + Serialize>(self, _n: &'static str, _v: &T) -> Result<(), SErr> {
+        self.calls.push("serialize_newtype_struct");
+        Ok(())
+    }
+    fn serialize_newtype_variant<T: ?Sized + Serialize>(
+        self,
+        _n: &'static str,
+        _i: u32,
+        _v: &'static str,
+        _x: &T,
+    ) -> Result<(), SErr> {
+        self.calls.push("serialize_newtype_variant");
+        Ok(())
+    }
+    fn serialize_seq(self, _len: Option<usize>) -> Result<Self::SerializeSeq, SErr> {
+        self.calls.push("serialize_seq");
+        Err(SErr("seq".into()))
+    }
+    fn serialize_tuple(self, _len: usize) -> Result<Self::SerializeTuple, SErr> {
+        self.calls.push("serialize_tuple");
+        Err(SErr("tuple".into()))
+    }
+    fn serialize_tuple_struct(self, _n: &'static str, _len: usize) -> Result<Self::SerializeTupleStruct, SErr> {
+        self.calls.push("serialize_tuple_struct");
+        Err(SErr("tuple_struct".into()))
+    }
+    fn serialize_tuple_variant(
+        self,
+        _n: &'static str,
+        _i: u32,
+        _v: &'static str,
+        _len: usize,
+    ) -> Result<Self::SerializeTupleVariant, SErr> {
+        self.calls.push("serialize_tuple_variant");
+        Err(SErr("tuple_variant".into()))
+    }
+    fn serialize_map(self, _len: Option<usize>) -> Result<Self::SerializeMap, SErr> {
+        self.calls.push("serialize_map");
+        Err(SErr("map".into()))
+    }
+    fn serialize_struct(self, _n: &'static str, _len: usize) -> Result<Self::SerializeStruct, SErr> {
+        self.calls.push("serialize_struct");
+        Err(SErr("struct".into()))
+    }
+    fn serialize_struct_variant(
+        self,
+        _n: &'static str,
+        _i: u32,
+        _v: &'static str,
+        _len: usize,
+    ) -> Result<Self::SerializeStructVariant, SErr> {
+        self.calls.push("serialize_struct_variant");
+        Err(SErr("struct_variant".into()))
+    }
+}
+
+/// `serde_events`: which serializer methods a value calls, and whether the bytes handed over are
+/// exactly `reference` (the output of the type's own `serialize_into`).  Generic: works for
+/// `RoaringBitmap` and `RoaringTreemap` alike.
+pub fn serde_events<T: Serialize>(v: &T, reference: &[u8]) -> String {
+    let mut rec = Recorder::default();
+    let r = v.serialize(&mut rec);
+    let calls = if rec.calls.is_empty() { "none".to_string() } else { rec.calls.join(",") };
+    format!(
+        "calls={} n={} sh={:016x} same={}{}",
+        calls,
+        rec.bytes.len(),
+        fnv_bytes(&rec.bytes),
+        rec.bytes == reference,
+        if r.is_err() { " err" } else { "" }
+    )
+}
+
+/// how the hand-written `Deserializer` answers whatever the type asks for
+#[derive(Clone, Copy)]
+pub enum Deliver {
+    Bytes,    // visit_bytes with a transient slice
+    Borrowed, // visit_borrowed_bytes with a slice living as long as 'de
+    Buf,      // visit_byte_buf with an owned Vec
+    Seq,      // visit_seq, one u8 per element
+}
+
+pub fn deliver(kind: &str) -> Option<Deliver> {
+    Some(match kind {
+        "bytes" => Deliver::Bytes,
+        "borrowed" => Deliver::Borrowed,
+        "buf" => Deliver::Buf,
+        "seq" => Deliver::Seq,
+        _ => return None,
+    })
+}
+
+pub struct ByteDe<'de> {
+    data: &'de [u8],
+    how: Deliver,
+}
+
+struct ByteSeq<'de> {
+    it: std::slice::Iter<'de, u8>,
+}
+
+impl<'de> SeqAccess<'de> for ByteSeq<'de> {
+    type Error = SErr;
+    fn next_element_seed<S: DeserializeSeed<'de>>(&mut self, seed: S) -> Result<Option<S::Value>, SErr> {
+        match self.it.next() {
+            Some(&b) => seed.deserialize(IntoDeserializer::<SErr>::into_deserializer(b)).map(Some),
+            None => Ok(None),
+        }
+    }
+    fn size_hint(&self) -> Option<usize> {
+        Some(self.it.len())
+    }
+}
+
+impl<'de> Deserializer<'de> for ByteDe<'de> {
+    type Error = SErr;
+    fn deserialize_any<V: Visitor<'de>>(self, visitor: V) -> Result<V::Value, SErr> {
+        match self.how {
+            Deliver::Bytes => {
+                let copy = self.data.to_vec();
+                visitor.visit_bytes(&copy)
+            }
+            Deliver::Borrowed => visitor.visit_borrowed_bytes(self.data),
+            Deliver::Buf => visitor.visit_byte_buf(self.data.to_vec()),
+            Deliver::Seq => visitor.visit_seq(ByteSeq { it: self.data.iter() }),
+        }
+    }
+    serde::forward_to_deserialize_any! {
+        bool i8 i16 i32 i64 i128 u8 u16 u32 u64 u128 f32 f64 char str string bytes byte_buf option unit
+        unit_struct newtype_struct seq tuple tuple_struct map struct enum identifier ignored_any
+    }
+}
+
+/// `serde_visit`: deserialize a `T` from a byte string delivered in the given way
+pub fn serde_visit<'de, T: Deserialize<'de>>(how: Deliver, data: &'de [u8]) -> Result<T, SErr> {
+    T::deserialize(ByteDe { data, how })
+}
+
+/// `serde_rt`: a real round trip through postcard (bytes as a length-prefixed byte string,
+/// non-self-describing) or serde_json (bytes as a sequence of numbers, self-describing)
+pub fn serde_rt<T: Serialize + for<'a> Deserialize<'a> + PartialEq>(fmt: &str, v: &T) -> Option<String> {
+    let back: Result<T, String> = match fmt {
+        "postcard" => postcard::to_allocvec(v)
+            .map_err(|e| e.to_string())
+            .and_then(|bs| postcard::from_bytes::<T>(&bs).map_err(|e| e.to_string())),
+        "json" => serde_json::to_vec(v)
+            .map_err(|e| e.to_string())
+            .and_then(|bs| serde_json::from_slice::<T>(&bs).map_err(|e| e.to_string())),
+        _ => return None,
+    };
+    Some(match back {
+        Ok(w) => format!("ok eq={}", &w == v),
+        Err(_) => "err".to_string(),
+    })
+}
+// To add RoaringTreemap: `tserde_events tN` = serde_events(t, &t_bytes), `tserde_visit kind tD src` =
+// serde_visit::<RoaringTreemap>(..), `tserde_rt fmt tN` = serde_rt(fmt, t) — three arms like the ones below.
+
+// ------------------------------------------------------------------------------------------ handlers
+
+pub fn handle(st: &mut State, toks: &[&str]) -> HResult {
+    match toks {
+        ["from_lsb0", d, off, hx] => {
+            let i = slot('b', d)?;
+            let off: u32 = off.parse().ok()?;
+            let bytes = parse_hex(hx)?;
+            // the documented panic is caught by the caller and printed as `panic`
+            st.bm[i] = Some(RoaringBitmap::from_lsb0_bytes(off, &bytes));
+            Some("ok".to_string())
+        }
+        ["stats", d] => {
+            let b = st.bm[slot('b', d)?].as_ref()?;
+            let s = b.statistics();
+            Some(format!(
+                "nc={} na={} nr={} nb={} va={} vr={} vb={} card={} min={} max={} ssz={}",
+                s.n_containers,
+                s.n_array_containers,
+                s.n_run_containers,
+                s.n_bitset_containers,
+                s.n_values_array_containers,
+                s.n_values_run_containers,
+                s.n_values_bitset_containers,
+                s.cardinality,
+                show_opt(s.min_value),
+                show_opt(s.max_value),
+                b.serialized_size()
+            ))
+        }
+        ["debug", d] => {
+            let b = st.bm[slot('b', d)?].as_ref()?;
+            let s = format!("{:?}", b);
+            let form = if s.contains(" values between ") { "summary" } else { "list" };
+            Some(format!("ok n={} h={:016x} f={}", s.len(), fnv_bytes(s.as_bytes()), form))
+        }
+        ["serde_events", d] => {
+            let b = st.bm[slot('b', d)?].as_ref()?;
+            let mut reference = Vec::new();
+            b.serialize_into(&mut reference).unwrap();
+            Some(serde_events(b, &reference))
+        }
+        ["serde_visit", kind, d, src] => {
+            let i = slot('b', d)?;
+            let how = deliver(kind)?;
+            let bytes = if let Some(s) = src.strip_prefix("ser:") {
+                let mut v = Vec::new();
+                st.bm[slot('b', s)?].as_ref()?.serialize_into(&mut v).unwrap();
+                v
+            } else {
+                parse_hex(src)?
+            };
+            Some(match serde_visit::<RoaringBitmap>(how, &bytes) {
+                Ok(b) => {
+                    st.bm[i] = Some(b);
+                    "ok".to_string()
+                }
+                Err(_) => "err".to_string(),
+            })
+        }
+        ["serde_rt", fmt, d] => {
+            let b = st.bm[slot('b', d)?].as_ref()?;
+            serde_rt(fmt, b)
+        }
+        _ => None,
+    }
 }
